@@ -131,8 +131,11 @@ def _same_exit(a, b):
     followed by the definite KeyError flow)."""
     if a.kind != b.kind:
         return False
-    return a.kind == "raise" or tm.veq(tm.freeze(a.value) if isinstance(a.value, (list, tuple, dict)) else a.value,
-                                       tm.freeze(b.value) if isinstance(b.value, (list, tuple, dict)) else b.value)
+    if a.kind == "raise" or a.value is b.value:
+        return True
+    if isinstance(a.value, (T, list, tuple, dict)) or isinstance(b.value, (T, list, tuple, dict)):
+        return False  # two different symbolic results are not compared structurally here (terms share sub-terms: a deep walk is exponential)
+    return type(a.value) is type(b.value) and a.value == b.value
 
 
 def exit_has_fact(ex, fact):
